@@ -69,7 +69,7 @@ PROPS = {
 
 # floors = 90 % of the obligation counts measured on the unchanged tree (quick: min over seeds 0 and 1; thorough: seed 0)
 _COUNTED = {
-    "quick": {"C01": 10814, "C02": 94748, "C03": 86339, "C04": 6254, "C05": 4525, "C06": 24426, "C07": 15486, "C08": 2288, "C09": 5368, "C10": 3504, "C11": 32583, "C12": 123520, "C13": 6002, "C14": 5577, "C15": 47105, "C16": 116491, "C17": 130512, "C18": 3939, "C19": 81},
+    "quick": {"C01": 10820, "C02": 94817, "C03": 86383, "C04": 6260, "C05": 4528, "C06": 24460, "C07": 15486, "C08": 2319, "C09": 5368, "C10": 3504, "C11": 32623, "C12": 123608, "C13": 6011, "C14": 5585, "C15": 47155, "C16": 116572, "C17": 130621, "C18": 3939, "C19": 81},
     "thorough": {"C01": 75412, "C02": 499202, "C03": 323391, "C04": 48580, "C05": 27025, "C06": 55736, "C07": 29011, "C08": 10021, "C09": 11224, "C10": 8724, "C11": 250540, "C12": 650541, "C13": 15351, "C14": 15211, "C15": 235301, "C16": 538319, "C17": 759598, "C18": 9356, "C19": 157},
 }
 for _pid, _m in PROPS.items():
